@@ -38,6 +38,7 @@ type Profile struct {
 	UnnamedPct       int    // % of signatures with unnamed parameters
 	GopathPct        int    // % of worlds in GOPATH+vendor layout
 	ModPath          string // module-relative import path prefix of the world (default example.com/w, own go.mod)
+	DiffAliasPct     int    // % of worlds with an extra source file importing used packages under other aliases
 	MockLikeParamPct int    // chance (per argument) of a mock type named like a parameter of the interface
 	SameAliasPct     int    // % of aliased imports that reuse an alias another file gave to a DIFFERENT package
 	LiteralAliasPct  int    // % of non-generic interfaces declared as alias of an interface literal
@@ -51,7 +52,7 @@ type Profile struct {
 func DefaultProfile() Profile {
 	return Profile{Name: "default", GenericPct: 20, MinDeps: 0, MaxDeps: 4, StdPct: 40, MaxIfaces: 3, MaxMethods: 4, MaxParams: 4,
 		MaxResults: 3, MaxDepth: 3, EmbedPct: 25, AliasPct: 25, DestOther: 25, DestTest: 10, DestSame: 8, OutFilePct: 10,
-		MultiArgPct: 30, UnnamedPct: 40, LiteralAliasPct: 7, MockLikeParamPct: 4}
+		MultiArgPct: 30, UnnamedPct: 40, LiteralAliasPct: 7, MockLikeParamPct: 4, DiffAliasPct: 6}
 }
 
 // G is one generation run.
@@ -203,7 +204,7 @@ func pkgNameForDir(dir string) string {
 	return r.Replace(base)
 }
 
-var typeNamePool = []string{"Ünit", "T", "Type", "Item", "Config", "Client", "ID", "URL", "Reader", "Context", "Node", "Thing", "Foo", "Bar", "Request",
+var typeNamePool = []string{"Mock", "CallInfo", "Ünit", "T", "Type", "Item", "Config", "Client", "ID", "URL", "Reader", "Context", "Node", "Thing", "Foo", "Bar", "Request",
 	"Options", "Key", "Value", "Event", "User", "MyType", "Data"}
 
 // type names whose de-capitalised form is a word the generated code needs (receiver, record variable, keywords,
@@ -215,8 +216,8 @@ var reservedStemTypes = []string{"Mock", "CallInfo", "String", "Int", "Func", "M
 var reservedStemTypesOpen = []string{"Error", "Any", "Nil", "Append", "Panic", "Len", "True", "New", "Make"}
 
 var ifaceNamePool = []string{"Store", "Service", "Repo", "Doer", "Handler", "Backend", "Api", "Thing", "Reader", "Manager", "Cache", "Queue",
-	"Worker", "Finder", "Sink"}
-var methodNamePool = []string{"ResetMissedCalls", "ResetStatsCalls", "Ärger", "Get", "Put", "Do", "Run", "Close", "Find", "Create", "Delete", "Update", "List", "Send", "Recv", "Handle",
+	"Worker", "Finder", "Sink", "ServerMock", "ClockMock", "Mock"}
+var methodNamePool = []string{"ResetMissedCalls", "ResetStatsCalls", "RESET", "ReSet", "Resets", "Reset", "ResetCalls", "Calls", "String", "Error", "Ärger", "Get", "Put", "Do", "Run", "Close", "Find", "Create", "Delete", "Update", "List", "Send", "Recv", "Handle",
 	"Open", "Process", "Apply", "Check", "Load", "Save", "Visit", "Exec", "One", "Two", "Three"}
 var tparamNames = []string{"T", "K", "V", "E", "S", "U", "TT", "Elem", "TKey", "T1", "T2"}
 var tparamNamesOdd = []string{"t", "Id", "id", "elem", "k", "tKey", "Url"}
@@ -224,7 +225,7 @@ var tparamNamesOdd = []string{"t", "Id", "id", "elem", "k", "tKey", "Url"}
 var idiomNames = []string{"ctx", "id", "name", "req", "w", "r", "err", "n", "s", "b", "ok", "key", "val", "x", "y", "data", "opts", "value"}
 var genOutNames = []string{"s", "s1", "s2", "n", "n1", "n2", "fn", "val", "ifaceVal", "v", "err", "f", "b", "b1", "strings", "ints", "errs", "stringToInt", "intCh"}
 var suffixNames = []string{"sMoqParam", "sOut", "nOut", "errOut", "ctxMoqParam", "s1Out", "bOut", "vOut", "ioMoqParam", "syncMoqParam"}
-var oddNames = []string{"über", "Äh", "ñu", "日本", "x_1", "_x", "a1", "X_", "X", "Ctx", "aB", "a_b", "ID", "Id", "iD", "URL", "uRL", "Url", "http", "HTTP", "Http", "json", "xml", "uuid", "uid", "ip", "vm", "utf8", "Utf8"}
+var oddNames = []string{"__", "___", "_1", "über", "Äh", "ñu", "日本", "x_1", "_x", "a1", "X_", "X", "Ctx", "aB", "a_b", "ID", "Id", "iD", "URL", "uRL", "Url", "http", "HTTP", "Http", "json", "xml", "uuid", "uid", "ip", "vm", "utf8", "Utf8"}
 var reservedNames = []string{"mock", "callInfo", "string", "nil", "append", "panic", "int", "error", "any", "bool", "len", "true", "calls"}
 
 // New builds a generator bound to a rapid test.
@@ -256,6 +257,13 @@ func (g *G) freshTop(pool []string, exported bool) string {
 		}
 		if g.topNames[n] || IsKeyword(n) || Predeclared[n] {
 			continue
+		}
+		if n == "mock" || n == "callInfo" {
+			// F-Y: the receiver / the record variable of every generated method hides a type of that name
+			if g.excluded("F-Y") {
+				continue
+			}
+			g.label("local:named-like-receiver")
 		}
 		if g.declFold[strings.ToLower(n)] {
 			if g.excluded("F-L") {
@@ -699,7 +707,14 @@ func (g *G) ty(c tyCtx) *Ty {
 		return &Ty{K: KSlice, Elem: g.ty(d)}
 	case 3:
 		e := g.ty(tyCtx{needCmp: c.needCmp, depth: c.depth + 1})
-		return &Ty{K: KArray, N: g.Int(0, 4), Elem: e, Cmp: e.Cmp}
+		n := g.Int(0, 4)
+		if g.Chance(15) {
+			// big by-value arrays (copied into the record)
+			n = []int{64, 100, 4096}[g.Int(0, 2)]
+			e = basic(g.Pick([]string{"byte", "int", "string"}), true)
+			g.label("type:big-array")
+		}
+		return &Ty{K: KArray, N: n, Elem: e, Cmp: e.Cmp}
 	case 4:
 		if c.needCmp {
 			return &Ty{K: KChan, Elem: g.ty(d), Dir: g.Int(0, 2), Cmp: true}
@@ -775,7 +790,7 @@ func (g *G) paramName(used map[string]bool, pos int) string {
 			n = g.Pick(oddNames)
 		}
 	} else {
-		switch g.Int(0, 7) {
+		switch g.Int(0, 8) {
 		case 0, 1:
 			n = g.Pick(idiomNames)
 		case 2:
@@ -804,6 +819,20 @@ func (g *G) paramName(used map[string]bool, pos int) string {
 			n = string(bs)
 		case 7:
 			n = g.Pick(reservedNames)
+		case 8:
+			// the name of a type the method may have to write unqualified
+			var names []string
+			for d := range g.declNames {
+				names = append(names, d)
+			}
+			for _, tp := range g.tparams {
+				names = append(names, tp.Name)
+			}
+			sort.Strings(names)
+			if len(names) == 0 {
+				names = idiomNames
+			}
+			n = g.Pick(names)
 		}
 	}
 	return n
@@ -969,6 +998,42 @@ func (g *G) sig(depth int, inner bool) *Sig {
 			g.label("param:shadows-two-later-imports")
 		}
 	}
+	if named && !inner && np >= 2 && !g.Open["F-L"] && g.Chance(5) {
+		// a parameter named like a source-package type which a LATER parameter mentions only as the type argument
+		// of an instantiated generic type or generic alias
+		var gens []namedCand
+		for _, nc := range append(g.namedCands(false), g.stdCands(false)...) {
+			if nc.d.NTParams == 1 && !nc.d.Iface && !nc.d.Constr && nc.d.NonType == "" {
+				gens = append(gens, nc)
+			}
+		}
+		var locals []*Decl
+		for _, d := range g.locals {
+			if d.NTParams == 0 && !d.Constr && d.NonType == "" && !d.Iface {
+				locals = append(locals, d)
+			}
+		}
+		if len(gens) > 0 && len(locals) > 0 {
+			gn := gens[g.Int(0, len(gens)-1)]
+			l := locals[g.Int(0, len(locals)-1)]
+			j := np - 1
+			i := g.Int(0, j-1)
+			if (!gn.d.TPCmp[0] || l.Cmp) && s.Params[i].Name != "_" && !used[l.Name] && !IsKeyword(l.Name) && !Predeclared[l.Name] {
+				s.Params[j].T = &Ty{K: KNamed, Name: gn.d.Name, Pkg: gn.p, Args: []*Ty{{K: KNamed, Name: l.Name, Pkg: g.src, Cmp: l.Cmp}}}
+				delete(used, s.Params[i].Name)
+				s.Params[i].Name = l.Name
+				used[l.Name] = true
+				fold = map[string]bool{}
+				for _, p := range s.Params {
+					fold[foldKey(p.Name)] = true
+				}
+				g.label("param:named-like-type-argument")
+				if gn.d.Alias {
+					g.label("param:named-like-generic-alias-argument")
+				}
+			}
+		}
+	}
 	if named && !inner && np >= 2 && !g.Open["F-F"] && g.Chance(5) {
 		// two parameters whose record fields collide (id / Id -> ID) and, half of the time, the first numbered
 		// name already taken by a third one (Id2)
@@ -987,10 +1052,14 @@ func (g *G) sig(depth int, inner bool) *Sig {
 				g.label("param:case-fold-dup")
 				if np >= 3 && g.Chance(50) {
 					k := g.Int(0, np-1)
-					if k != i && k != j && s.Params[k].Name != "_" && g.okParamName(v+"2", used, map[string]bool{}) {
+					third := v + "2"
+					if g.Chance(50) {
+						third = base + "2" // a different name that maps to the same numbered field
+					}
+					if k != i && k != j && s.Params[k].Name != "_" && g.okParamName(third, used, map[string]bool{}) {
 						delete(used, s.Params[k].Name)
-						s.Params[k].Name = v + "2"
-						used[v+"2"] = true
+						s.Params[k].Name = third
+						used[third] = true
 						g.label("param:case-fold-dup-numbered-taken")
 					}
 				}
@@ -1463,6 +1532,13 @@ func (g *G) genIface(cfgSkipEnsure bool) *Iface {
 				// generic alias: type X[T any] = G[T]
 				tpn := g.Pick(tparamNames)
 				it.TParams = []TParamDecl{{Name: tpn, ConSrc: "any", Kind: "any"}}
+				if g.Chance(50) && (cfgSkipEnsure || !g.Open["F-C"]) {
+					// the alias may narrow the constraint (the target accepts any): forms the explicit self-check cannot spell
+					con := g.Pick([]string{"comparable", "~int | ~string", "interface{ ~int | ~uint8; String() string }", "interface{ comparable; String() string }", "interface{ Less(" + tpn + ") bool }"})
+					it.TParams[0].ConSrc, it.TParams[0].Kind = con, "alias-narrowed"
+					it.HardConstraint = true
+					g.label("constraint:alias-narrowed")
+				}
 				for i := range t.Args {
 					t.Args[i] = &Ty{K: KTParam, Name: tpn}
 				}
@@ -1554,6 +1630,17 @@ func (g *G) genIface(cfgSkipEnsure bool) *Iface {
 		}
 		it.AllMeths[name] = true
 		it.Methods = append(it.Methods, Meth{Name: name, Sig: g.sig(0, false)})
+	}
+	if len(it.Methods) > 0 && g.Chance(3) {
+		// a method named like a member the mock type generates for another method (accessor, function field,
+		// reset method): such a mock cannot compile, moq has to refuse it (or, where nothing clashes, cope)
+		base := it.Methods[g.Int(0, len(it.Methods)-1)].Name
+		cand := g.Pick([]string{base + "Calls", base + "Func", "Reset" + base + "Calls", "ResetCalls", "Reset"})
+		if !it.AllMeths[cand] {
+			it.AllMeths[cand] = true
+			it.Methods = append(it.Methods, Meth{Name: cand, Sig: g.sig(0, false)})
+			g.label("iface:generated-member-name")
+		}
 	}
 	if len(it.AllMeths) == 0 {
 		g.label("iface:empty")
@@ -1975,6 +2062,46 @@ func (g *G) Case() *core.Case {
 	}
 	for _, f := range g.files {
 		c.Files[dir+"/"+f.Name] = g.renderSrcFile(f)
+	}
+	if !g.P.NoDotBlank && g.Chance(g.P.DiffAliasPct) {
+		// one more file of the source package which imports packages the interfaces mention under aliases of ITS
+		// OWN: the same path then has different names in different files
+		var cands []*Pkg
+		seenP := map[*Pkg]bool{}
+		for _, f := range g.files {
+			for _, p := range f.order {
+				if !seenP[p] && len(p.Decls) > 0 && p.Decls[0].NTParams == 0 && p.Path != "unsafe" {
+					seenP[p] = true
+					cands = append(cands, p)
+				}
+			}
+		}
+		if len(cands) > 0 {
+			var b strings.Builder
+			fmt.Fprintf(&b, "package %s\n\nimport (\n", name)
+			var uses []string
+			n := 1 + g.Int(0, 1)
+			taken := map[string]bool{}
+			for k := 0; k < n && k < len(cands); k++ {
+				p := cands[(g.Int(0, len(cands)-1)+k)%len(cands)]
+				if taken[p.Path] {
+					continue
+				}
+				taken[p.Path] = true
+				alias := fmt.Sprintf("%sq%d", g.Pick(aliasPool), k)
+				if g.topNames[alias] || g.declNames[alias] {
+					continue
+				}
+				fmt.Fprintf(&b, "\t%s %q\n", alias, p.Path)
+				uses = append(uses, fmt.Sprintf("var _ %s.%s", alias, p.Decls[0].Name))
+			}
+			if len(uses) > 0 {
+				b.WriteString(")\n\n" + strings.Join(uses, "\n") + "\n")
+				c.Files[dir+"/"+g.Pick([]string{"0_alias.go", "k_alias.go", "zz_alias.go"})] = b.String()
+				g.label("alias:differs-between-files")
+				g.label("src:extra-alias-file")
+			}
+		}
 	}
 	if !g.P.ExecSafe && !g.gopath && g.Chance(20) {
 		// objects in and below the source directory which are NOT part of the package moq loads: test files,
